@@ -150,6 +150,12 @@ def extract():
                                                   "self._facade = None",
                                                   "self._spa_descriptors = None",
                                                   "self._spa_state = GeckoSpaState.IDLE"],
+        "facade_cleared_last_descriptors_twice_loop": ["self._spa_descriptors = None",
+                                                       "if self._facade is not None:\n    await self._facade.disconnect()",
+                                                       "while self._spa is not None:\n    spa = self._spa\n    await spa.disconnect()\n    if self._spa is spa:\n        self._spa = None",
+                                                       "self._facade = None",
+                                                       "self._spa_descriptors = None",
+                                                       "self._spa_state = GeckoSpaState.IDLE"],
     }
     shape = [k for k, v in reset_shapes.items() if v == ar]
     if not shape:
@@ -234,7 +240,9 @@ def gen_lifecycle():
     t += "(* async_reset: true = self._facade is cleared only after the spa has been disconnected *)\n"
     t += "Definition reset_clears_facade_last : bool := %s.\n" % vf.cbool(reset_shape.startswith("facade_cleared_last"))
     t += "(* async_reset: true = self._spa_descriptors is cleared again when the reset finishes (after its last await) *)\n"
-    t += "Definition reset_clears_descriptors_last : bool := %s.\n" % vf.cbool(reset_shape.endswith("descriptors_twice"))
+    t += "Definition reset_clears_descriptors_last : bool := %s.\n" % vf.cbool("descriptors_twice" in reset_shape)
+    t += "(* async_reset: true = it disconnects spa objects until self._spa is None, and clears the reference only if it still is the object it disconnected *)\n"
+    t += "Definition reset_loops_until_no_spa : bool := %s.\n" % vf.cbool(reset_shape.endswith("_loop"))
     t += "(* _sequence_pump: an exception of a locate / connect attempt is caught, logged and followed by async_reset (else it ends the task) *)\n"
     t += "Definition pump_survives : bool := %s.\n" % vf.cbool(survives)
     t += "(* _sequence_pump: ERROR_SPA_NOT_FOUND is left by a reset after the discovery timeout (else it is terminal for the pump) *)\n"
